@@ -56,12 +56,12 @@ Qed.
 Lemma step_all_mem : forall k o X h h',
   mem h X = true -> mstep h (k, o) = inl h' -> mem h' (fst (step_all k o X)) = true.
 Proof.
-  intros k o X h h'. induction X as [|x r IH]; simpl; intros Hm Hs.
+  intros k o X h h'. induction X as [|x r IH]; cbn [step_all mem]; intros Hm Hs.
   - discriminate Hm.
-  - destruct (step_all k o r) as [hs vs]. simpl in IH. apply orb_true_iff in Hm as [Hm|Hm].
-    + apply held_eqb_eq in Hm. subst x. rewrite Hs. simpl fst.
-      apply mem_union_iff. left. simpl. rewrite held_eqb_refl. reflexivity.
-    + destruct (mstep x (k, o)) as [h1|v]; simpl fst.
+  - destruct (step_all k o r) as [hs vs]. cbn [fst] in IH. apply orb_true_iff in Hm as [Hm|Hm].
+    + apply held_eqb_eq in Hm. subst x. rewrite Hs. cbn [fst].
+      apply mem_union_iff. left. cbn [mem]. rewrite held_eqb_refl. reflexivity.
+    + destruct (mstep x (k, o)) as [h1|v]; cbn [fst].
       * apply mem_union_iff. right. auto.
       * auto.
 Qed.
@@ -69,10 +69,10 @@ Qed.
 Lemma step_all_nobad : forall k o X h,
   snd (step_all k o X) = [] -> mem h X = true -> exists h', mstep h (k, o) = inl h'.
 Proof.
-  intros k o X h. induction X as [|x r IH]; simpl; intros Hb Hm.
+  intros k o X h. induction X as [|x r IH]; cbn [step_all mem]; intros Hb Hm.
   - discriminate Hm.
-  - destruct (step_all k o r) as [hs vs]. simpl in IH.
-    destruct (mstep x (k, o)) as [h1|v] eqn:E; simpl in Hb.
+  - destruct (step_all k o r) as [hs vs]. cbn [snd] in IH.
+    destruct (mstep x (k, o)) as [h1|v] eqn:E; cbn [snd] in Hb.
     + apply orb_true_iff in Hm as [Hm|Hm].
       * apply held_eqb_eq in Hm. subst x. eauto.
       * auto.
@@ -225,7 +225,7 @@ Proof.
       * destruct o; simpl in M2 |- *; rewrite ?mem_union_iff; auto.
     + destruct (IHa _ _ H1 _ _ Hmem Ba) as [h1 [R1 M1]].
       exists h1. split; [exact R1|].
-      destruct o; simpl in M1 |- *; rewrite ?mem_union_iff; auto. congruence.
+      destruct o; simpl in M1 |- *; rewrite ?mem_union_iff; auto; congruence.
   - (* SAlt *)
     simpl in Hbad. apply app_eq_nil in Hbad as [Ba Bb].
     apply exec_alt_inv in Hex as [H1 | H1].
@@ -252,14 +252,14 @@ Proof.
       exists h1. split; [exact R1|]. simpl in M1 |- *. rewrite mem_union_iff. auto.
     + destruct (IHb _ _ H1 _ _ Hmem Hbad) as [h1 [R1 M1]].
       exists h1. split; [exact R1|].
-      destruct o; simpl in M1 |- *; rewrite ?mem_union_iff; auto. congruence.
+      destruct o; simpl in M1 |- *; rewrite ?mem_union_iff; auto; congruence.
   - (* SCont *)
     simpl in Hbad. apply exec_cont_inv in Hex as [[-> H1] | [H1 Hne]].
     + destruct (IHb _ _ H1 _ _ Hmem Hbad) as [h1 [R1 M1]].
       exists h1. split; [exact R1|]. simpl in M1 |- *. rewrite mem_union_iff. auto.
     + destruct (IHb _ _ H1 _ _ Hmem Hbad) as [h1 [R1 M1]].
       exists h1. split; [exact R1|].
-      destruct o; simpl in M1 |- *; rewrite ?mem_union_iff; auto. congruence.
+      destruct o; simpl in M1 |- *; rewrite ?mem_union_iff; auto; congruence.
   - (* SLoop *)
     rewrite post_loop in Hbad |- *.
     destruct (loop_iter fuel a p fuel X0) as [X ok] eqn:E.
